@@ -467,10 +467,10 @@ class LogDynamics:
         q_const = self.q_const.copy()
         a2_cuts = self.a2_cuts.copy()
 
-        isf = np.zeros_like(self.time)
-        qt = np.zeros_like(self.time)
-        r2 = np.zeros_like(self.time)
-        r4 = np.zeros_like(self.time)
+        isf = np.zeros_like(self.time, dtype=np.float64)
+        qt = np.zeros_like(self.time, dtype=np.float64)
+        r2 = np.zeros_like(self.time, dtype=np.float64)
+        r4 = np.zeros_like(self.time, dtype=np.float64)
         for n in range(1, self.snapshots.nsnapshots):
             index = n - 1
             pos_init = self.snapshots.snapshots[0].positions
